@@ -163,14 +163,14 @@ def judge(ctx, scn, rep, err):
 def gen_stop(r, k):
     """several seeds behind one busy WARC writer, and a stop request in the middle: whatever is acknowledged as finished - before, during or
     after the stop - must have its records on disk at that very moment"""
-    site = {"/w%d/big.bin" % k: {"ctype": "application/octet-stream", "body": {"kind": "bin", "size": r.choice([12000000, 25000000]), "seed": 3}}}
+    site = {"/w%d/big.bin" % k: {"ctype": "application/octet-stream", "body": {"kind": "bin", "size": r.choice([25000000, 45000000]), "seed": 3}}}
     seeds = ["/w%d/big.bin" % k]
     for i in range(r.randrange(6, 12)):
         site["/w%d/p%d" % (k, i)] = {"ctype": "text/plain", "body": {"kind": "text", "size": r.choice([300, 3000, 60000]), "seed": i}, "delayMs": r.choice([0, 0, 40])}
         seeds.append("/w%d/p%d" % (k, i))
     cfg = {"workers": r.choice([2, 4]), "maxConcurrentAssets": 1, "maxRetry": 0, "httpTimeout": 10, "hqBatchSize": 1, "warcPoolSize": 1, "discardStatus": []}
     return {"useHQ": True, "snapshotAtAck": True, "seeds": seeds, "site": site, "cfg": cfg, "kind": "stop-behind-busy-writer",
-            "stop": {"when": "requests", "n": r.randrange(3, len(seeds)), "extraMs": r.choice([0, 30, 150]), "timeoutMs": 30000, "stopTimeoutMs": 40000}}
+            "stop": {"when": "requests", "n": r.choice([3, 4, 5, 6]), "extraMs": r.choice([0, 0, 30]), "timeoutMs": 30000, "stopTimeoutMs": 60000}}
 
 
 def judge_stop(ctx, scn, rep, err):
@@ -243,7 +243,7 @@ def run(ctx):
     for f in sorted(os.listdir(d)) if os.path.isdir(d) else []:
         scns.append(json.load(open(os.path.join(d, f)))["scenario"])
     scns += [gen(ctx.rng, k, ctx.thorough()) for k in range(n)]
-    scns += [gen_stop(ctx.rng, k) for k in range(24 if ctx.thorough() else 3)]
+    scns += [gen_stop(ctx.rng, k) for k in range(30 if ctx.thorough() else 6)]
     results = e2e.run_many(scns, timeout=180, workers=8)
     exps = []
     for scn, (rep, err) in zip(scns, results):
